@@ -125,6 +125,13 @@ class Track:
         if interpolate is not None:
             self.interpolate = interpolate
 
+        #--------------------------------------------------------------------------------
+        # A new stream starts a new interpolation: drop the segment in progress (and the
+        # event read ahead to interpolate towards) of the stream that was playing.
+        #--------------------------------------------------------------------------------
+        self.next_event = None
+        self.interpolating_event = PSequence([], 0)
+
     def update(self,
                events: Union[dict, Pattern],
                quantize: Optional[float] = None,
